@@ -159,11 +159,25 @@ pub fn cases(seed: u64, tier: Tier) -> Cases {
         let r = guarded(|| {
             let a = encode(&e);
             let b = encode(&e);
+            // the same error reached through a reference (`impl ErrorType for &T`) and through `Error::service`
+            let by_ref = encode(&&e);
+            assert!(by_ref.error_code() == a.error_code() && by_ref.error_name() == a.error_name() && by_ref.parameters() == a.parameters(), "BYREF: encode(&&e) differs from encode(&e): {:?} vs {:?}", by_ref, a);
+            if let Some(id) = id {
+                assert!(by_ref.error_instance_id() == id, "BYREF: the supplied instance id {} is lost when the error is passed by reference: {}", id, by_ref.error_instance_id());
+                if let conjure_error::ErrorKind::Service(s) = Error::service_safe("cause", &e).kind() {
+                    assert!(s.error_instance_id() == id, "BYREF: Error::service_safe(cause, &e) carries instance id {} instead of the supplied {}", s.error_instance_id(), id);
+                }
+            }
             (a, b)
         });
         let op = format!("encode {} {}", ty.txt(), val.txt());
         let note = format!("encode({} : {}) id {:?}", val.txt(), ty.txt(), id);
         let se = match r {
+            Err(p) if p.starts_with("BYREF: ") => {
+                cs.push("encode", op, "byref".into(), true, note);
+                cs.fail_last("encode:by-reference", p);
+                continue;
+            }
             Err(p) => {
                 cs.push("encode", op, "panic".into(), true, note);
                 cs.fail_last("encode:panic", p);
